@@ -1258,14 +1258,21 @@ static void union_initializer(Token **rest, Token *tok, Initializer *init) {
     return;
   }
 
-  init->mem = init->ty->members;
+  // Unnamed bit-fields take no part in initialization (C11 6.7.9p9):
+  // the first NAMED member is initialized.
+  Member *mem = init->ty->members;
+  while (mem && mem->is_bitfield && !mem->name)
+    mem = mem->next;
+  if (!mem)
+    error_tok(tok, "union has no named member to initialize");
+  init->mem = mem;
 
   if (equal(tok, "{")) {
-    initializer2(&tok, tok->next, init->children[0]);
+    initializer2(&tok, tok->next, init->children[mem->idx]);
     consume(&tok, tok, ",");
     *rest = skip(tok, "}");
   } else {
-    initializer2(rest, tok, init->children[0]);
+    initializer2(rest, tok, init->children[mem->idx]);
   }
 }
 
